@@ -27,8 +27,8 @@ RULE = ("CraftTorch on N in 1..3 structured dyadic images (C in 1..3, H != W in 
         "2..4 concepts, patch sizes 2..min(H,W) (strides floor(0.8 p) with and without truncation), batch sizes biased "
         "to {1,2,3,M-1,M,M+1,N,64}, nb_design in {2,3,4,5,8,16}, F-quad heads with 1..3 classes and every class id, "
         "importances global (inputs=None), on the fit inputs, or on other inputs; 1/4 of the cases with a zero bank row; "
-        "distinct = different canonical JSON; non-trivial = 4-D activations or more than one head batch per input or a "
-        "remainder batch or a truncated stride")
+        "distinct = different canonical JSON; non-trivial = 4-D activations with at least two locations, or more than one "
+        "head batch per input (incl. remainder batches)")
 ASSUMPTIONS = ["scikit-learn's NMF.transform is observed as a table row -> coefficients taken from one call on the whole "
                "activation matrix (it is deterministic; its non-negativity is checked at run time, not proved)",
                "the Halton draw is regenerated with the call the code makes (scipy.stats.qmc.Halton(2R, scramble=False)"
@@ -114,19 +114,24 @@ def out_size(d, k):
 
 def gen_case(rng, tier):
     big = tier == "thorough"
-    H = rng.choice([8, 9, 10, 12])
-    W = rng.choice([12, 14, 15, 16])
-    if rng.random() < 0.3:
-        H, W = W, H
+    while True:
+        H = rng.choice([8, 9, 10, 12])
+        W = rng.choice([12, 14, 15, 16])
+        if rng.random() < 0.3:
+            H, W = W, H
+        if H != W:
+            break
     C = rng.choice([1, 2, 3])
     N = rng.choice([1, 2, 2, 3, 3])
     kind = rng.choice(["4d", "4d", "4d", "flatten", "pool"])
     F = rng.choice([2, 3, 4])
-    # kernel = stride of the conv: output grid (H', W') small, H' != W'
+    # kernel = stride of the conv: small output grid (H', W') with H' != W', mostly with both sides >= 2
     while True:
-        kh, kw = rng.randint(H // 3, H), rng.randint(W // 4, W)
-        hh, ww = out_size(H, kh), out_size(W, kw)
-        if hh * ww <= (8 if not big else 9) and (hh != ww or kind == "pool") and hh * ww * F <= 24:
+        hh, ww = rng.choice([(2, 3), (3, 2), (2, 3), (3, 2), (2, 4), (4, 2), (1, 2), (2, 1), (1, 3), (3, 1), (1, 4)])
+        khs = [k for k in range(1, H + 1) if out_size(H, k) == hh]
+        kws = [k for k in range(1, W + 1) if out_size(W, k) == ww]
+        if khs and kws and hh * ww * F <= 24:
+            kh, kw = rng.choice(khs), rng.choice(kws)
             break
     conv_w = [[[[rng.choice([0, 0, 1, 1, 2]) for _ in range(kw)] for _ in range(kh)] for _ in range(C)] for _ in range(F)]
     for f in range(F):
@@ -170,7 +175,8 @@ def stride(p):
 
 def nontrivial(case):
     M = case["n"] * (case["R"] + 2)
-    return case["kind"] == "4d" or case["bs"] < M or (4 * case["p"]) % 5 != 0
+    hh, ww, _ = geom(case)
+    return (case["kind"] == "4d" and hh * ww >= 2) or case["bs"] < M
 
 
 def distribution(cases):
